@@ -76,6 +76,8 @@ def run(ctx, res):
     # the loader instance of every second shape has served ANOTHER configuration before (the one half the list away: the options differ)
     for i, c in enumerate(cases):
         c["priorConfigText"] = cases[(i + len(cases) // 2 + 1) % len(cases)]["configText"]
+        # every third project was generated once already under that other configuration (same generate mode: same output file names)
+        c["rerunAfterPrior"] = i % 3 == 0 and cases[(i + len(cases) // 2 + 1) % len(cases)]["cfg"]["mode"] == c["cfg"]["mode"]
     vlib.write_ndjson(ctx.path("cases.ndjson"), cases)
     vlib.run_harness(["exports", vlib.CLI_BIN, ctx.path("cases.ndjson"), ctx.path("events.ndjson"), ctx.path("proj"), "12"], timeout=3000)
     events = vlib.read_ndjson(ctx.path("events.ndjson"))
